@@ -55,14 +55,17 @@ def replaceChildrenHandler : List SetterForm.HW :=
 /-- (this became true with repo fix 9176cc9; before it the four setters unlinked the old children and cleared the lists with no handler around
 `self.add`, and `c.children = [a, 1]` left the collection empty — the former theorems `collection_setters_change_state_before_rejecting` and
 `children_setter_offending_path`.)  For each of the four collection setters, on every path: the validation of the typed setters
-(`format_obj_input`) is a point of rejection with nothing written; the only other point of rejection is `self.add` inside the `try`; the writes
+(`format_obj_input`, and since repo fix 045b334 `_refuse_non_objects` before it in `collections`) is a point of rejection with nothing written; the only other point of rejection is `self.add` inside the `try`; the writes
 made before it — `child._parent` of every removed child, `self._children`, the typed views — are each undone by the handler; and `self._children`
 is restored from a reference taken before it was rebound. -/
 theorem collection_setters_restore_every_write :
     ∀ s ∈ Setters.setters, SetterForm.name s ∈ collectionSetters →
       ∀ p ∈ SetterForm.pathsL s.body,
         SetterForm.rwc p.1 = true ∧
-        p.1.filter (·.isRaise) = (if s.attr = "children" then [] else [SetterForm.Ev.mayRaise "format_obj_input"]) ++
+        p.1.filter (·.isRaise) =
+          (if s.attr = "children" then []
+           else if s.attr = "collections" then [SetterForm.Ev.mayRaise "_refuse_non_objects", .mayRaise "format_obj_input"]
+           else [SetterForm.Ev.mayRaise "format_obj_input"]) ++
           [.mayRaiseR "self.add" replaceChildrenHandler] ∧
         (p.1.takeWhile fun e => e != .mayRaiseR "self.add" replaceChildrenHandler).filter (·.isWrite) ∈
           [[.mutate "self._children", .mutate "self._update_src_and_sens"],
@@ -75,7 +78,8 @@ theorem collection_setters_restore_every_write :
 
 /-- the body of the `children` setter with `_replace_children` inlined, as a literal (checked against the regenerated tree below) -/
 def childrenBody (handler : List Setters.Stmt) (excType : String) (saveFirst : Bool) : List Setters.Stmt :=
-  [.inline "self._replace_children" ["list"]
+  [.ite ["isinstance"] [.assign "children" false []] [],      -- `if not isinstance(children, (list, tuple)): children = [children]` (045b334)
+   .inline "self._replace_children" ["list"]
     ((if saveFirst then [Setters.Stmt.save "old_children" "self._children"] else []) ++
      [.loop [] [.assignElem "child._parent [child in removed]" []], .assign "self._children" true ["any"]] ++
      (if saveFirst then [] else [Setters.Stmt.save "old_children" "self._children"]) ++
@@ -207,6 +211,198 @@ example : SetterForm.form ⟨"f", "C", "x", "v", [.save "old" "self._children", 
 -- a write made by the setter BEFORE it calls the helper is not known to the helper's handler: flagged
 example : SetterForm.form ⟨"f", "C", "x", "v", [.assign "self._extra" true [],
     .inline "self._replace_children" [] (childrenBody childrenHandler "Exception" true)]⟩ = false := by decide
+
+/-! ### the two statement shapes of repo fix 045b334 -/
+
+/-- the module-level helpers the setters call, as regenerated, can only reject: their bodies write no object state and call only known quiet or
+rejecting functions or themselves — so a call of one is a plain point of rejection (`setters_reject_without_change` then requires that
+nothing has been written when it is reached) -/
+theorem helpers_only_reject :
+    Setters.helpers.map (fun h => (h.1, SetterForm.helperRaisesOnly h, SetterForm.writesL h.2, SetterForm.calleesL h.2)) =
+      [("_refuse_non_objects", true, false, ["isinstance", "isinstance", "_refuse_non_objects", "check_format_input_obj"])] := by
+  decide
+
+/-- witnesses: a helper that writes state, or that calls something the analysis does not know, is not taken for a point of rejection (the setter
+calling it is then flagged: its call is unclassified); and a helper called AFTER a write is flagged like any other point of rejection -/
+theorem writing_helper_is_flagged :
+    SetterForm.helperRaisesOnly ("_h", [.loop [] [.ite ["isinstance"] [.expr ["_h"]] [.assignElem "obj._parent [obj in inp]" []]]]) = false ∧
+    SetterForm.helperRaisesOnly ("_h", [.expr ["some_new_function"]]) = false ∧
+    SetterForm.helperRaisesOnly ("_h", [.expr ["self._update_src_and_sens"]]) = false ∧
+    SetterForm.form ⟨"f", "C", "x", "v", [.expr ["_unknown_helper"], .restore "self._x" "v"]⟩ = false ∧
+    SetterForm.form ⟨"f", "C", "x", "v", [.assign "self._x" true [], .expr ["_refuse_non_objects"]]⟩ = false ∧
+    SetterForm.form ⟨"f", "C", "x", "v", [.expr ["_refuse_non_objects"], .restore "self._x" "v"]⟩ = true := by
+  decide
+
+/-- rebinding the PARAMETER (`if not isinstance(v, (list, tuple)): v = [v]`) is not a change of object state -/
+example : SetterForm.form ⟨"f", "C", "x", "v", [.ite ["isinstance"] [.assign "v" false []] [],
+    .assign "w" false ["check_format_input_scalar"], .restore "self._x" "w"]⟩ = true := by decide
+
+/-! ### the values of `Collection.children` and `Collection.collections` (model: `childrenSetter`, `collectionsSetter`) -/
+
+theorem allObjs_eq_objList (xs : List CollVal) : allObjs xs = objList xs := by
+  induction xs with
+  | nil => rfl
+  | cons x r ih =>
+    unfold allObjs objList
+    rw [ih]
+    unfold objList
+    cases x <;> simp [asObj] <;> split <;> simp_all
+
+theorem collAddCore_ok_iff (args : List CollVal) (os : List (Nat × ObjKind)) :
+    collAddCore args = .ok os ↔ (objList args).bind keepGood = some os := by
+  unfold collAddCore
+  rw [allObjs_eq_objList]
+  cases objList args with
+  | none => simp
+  | some os' =>
+    simp only [Option.bind_some, keepGood, goodObjs]
+    by_cases h1 : (os'.any fun o => o.2 == ObjKind.selfOrAncestor) = true
+    · simp [h1]
+    · by_cases h2 : hasDup (os'.map (·.1)) = true
+      · simp [h1, h2]
+      · simp [h1, h2]
+
+theorem collAddCore_error_is_bad (args : List CollVal) (e : Err) (h : collAddCore args = .error e) : e = .badUserInput := by
+  unfold collAddCore at h
+  split at h
+  · cases h; rfl
+  · split at h
+    · cases h; rfl
+    · split at h
+      · cases h; rfl
+      · cases h
+
+/-- C17 (`Collection.children`, after repo fix 045b334): accepted ⇔ documented — a single Magpylib object, or a list / tuple of them (possibly
+wrapped in one more list), none the collection itself or a collection containing it, none twice — and the accepted value is the new list of
+children; every rejection is the library's input error -/
+theorem children_accepts_iff_documented (v : CollVal) (os : List (Nat × ObjKind)) :
+    (childrenSetter v = .ok os ↔ docChildren v = some os) ∧
+    (∀ e, childrenSetter v = .error e → e = .badUserInput) := by
+  refine ⟨?_, fun e h => collAddCore_error_is_bad _ e h⟩
+  cases v with
+  | obj i k =>
+    simp only [childrenSetter, collAdd, unwrapArgs, docChildren]
+    rw [collAddCore_ok_iff]
+    simp [objList, asObj]
+  | junk =>
+    simp only [childrenSetter, collAdd, unwrapArgs, docChildren]
+    rw [collAddCore_ok_iff]
+    simp [objList, asObj]
+  | seq xs =>
+    rcases xs with _ | ⟨x, _ | ⟨y, r⟩⟩
+    · simp only [childrenSetter, collAdd, unwrapArgs, docChildren]; exact collAddCore_ok_iff _ _
+    · cases x <;> simp only [childrenSetter, collAdd, unwrapArgs, docChildren] <;> exact collAddCore_ok_iff _ _
+    · simp only [childrenSetter, collAdd, unwrapArgs, docChildren]; exact collAddCore_ok_iff _ _
+
+/-- C17 (`c.children = <something that is no list>`, the observation repaired by 045b334: before it `c.children = 5` raised a TypeError from
+`self.add(*5)`): a value that is not a list or tuple is accepted exactly when it is a Magpylib object other than the collection itself or one
+containing it — it becomes the only child — and is refused with the library's input error otherwise -/
+theorem children_rejects_non_sequences_with_library_error (v : CollVal) (hv : ∀ xs, v ≠ .seq xs) :
+    (∀ os, childrenSetter v = .ok os ↔ ∃ i k, v = .obj i k ∧ k ≠ .selfOrAncestor ∧ os = [(i, k)]) ∧
+    (∀ e, childrenSetter v = .error e → e = .badUserInput) ∧
+    (v = .junk → childrenSetter v = .error .badUserInput) := by
+  refine ⟨?_, (children_accepts_iff_documented v []).2, fun h => by subst h; decide⟩
+  intro os
+  rw [(children_accepts_iff_documented v os).1]
+  cases v with
+  | seq xs => exact absurd rfl (hv xs)
+  | junk => simp [docChildren]
+  | obj i k =>
+    have hg : goodObjs [(i, k)] = !(k == ObjKind.selfOrAncestor) := by simp [goodObjs, hasDup]
+    simp only [docChildren, keepGood, hg]
+    cases k <;> simp
+    all_goals
+      constructor
+      · rintro rfl; exact ⟨i, _, ⟨rfl, rfl⟩, by simp, rfl⟩
+      · rintro ⟨i', k', ⟨rfl, rfl⟩, _, rfl⟩; rfl
+
+theorem no_junk_of_collections (l : List CollVal) (h : l.all isCollectionObj = true) :
+    l.any isJunk = false ∧ l.filterMap asCollection = l.filterMap asObj := by
+  induction l with
+  | nil => exact ⟨rfl, rfl⟩
+  | cons x r ih =>
+    simp only [List.all_cons, Bool.and_eq_true] at h
+    obtain ⟨ih1, ih2⟩ := ih h.2
+    cases x with
+    | seq xs => simp [isCollectionObj] at h
+    | junk => simp [isCollectionObj] at h
+    | obj i k =>
+      have hk : (k == ObjKind.collection || k == ObjKind.selfOrAncestor) = true := h.1
+      simp only [List.any_cons, isJunk, ih1, Bool.or_self, List.filterMap_cons, asCollection, hk, ↓reduceIte, asObj, ih2, and_self]
+
+theorem unwrap_objs (os : List (Nat × ObjKind)) :
+    unwrapArgs (os.map fun o => CollVal.obj o.1 o.2) = os.map (fun o => CollVal.obj o.1 o.2) ∧
+    objList (os.map fun o => CollVal.obj o.1 o.2) = some os := by
+  refine ⟨?_, ?_⟩
+  · rcases os with _ | ⟨a, _ | ⟨b, r⟩⟩ <;> rfl
+  · rw [← allObjs_eq_objList]
+    induction os with
+    | nil => rfl
+    | cons a r ih => simp [allObjs, asObj, ih]
+
+/-- C17 (`Collection.collections`, after repo fix 045b334): (1) an entry — at any depth of nesting — that is no Magpylib object makes the
+assignment fail with the library's input error (before the fix such entries were dropped without a word and every sub-collection was removed);
+(2) every rejection is the library's input error; (3) otherwise the assignment is accepted exactly when the Collection objects among the
+(flattened) entries can be children together, and they become the sub-collections; (4) a documented value — nested lists of Collection objects
+only — is accepted with exactly these -/
+theorem collections_setter_refuses_non_objects (v : CollVal) :
+    ((leavesC v).any isJunk = true → collectionsSetter v = .error .badUserInput) ∧
+    (∀ e, collectionsSetter v = .error e → e = .badUserInput) ∧
+    (∀ os, collectionsSetter v = .ok os ↔
+      (leavesC v).any isJunk = false ∧ os = (leavesC v).filterMap asCollection ∧ goodObjs os = true) ∧
+    (∀ os, docCollections v = some os → collectionsSetter v = .ok os) := by
+  have ok_iff : ∀ os, collectionsSetter v = .ok os ↔
+      (leavesC v).any isJunk = false ∧ os = (leavesC v).filterMap asCollection ∧ goodObjs os = true := by
+    intro os
+    unfold collectionsSetter
+    by_cases hj : (leavesC v).any isJunk = true
+    · simp [hj]
+    · have hj' : (leavesC v).any isJunk = false := by simpa using hj
+      simp only [hj', Bool.false_eq_true, ↓reduceIte, collAdd, true_and]
+      rw [(unwrap_objs _).1, collAddCore_ok_iff, (unwrap_objs _).2]
+      simp only [Option.bind_some, keepGood]
+      constructor
+      · intro h; split at h
+        · rename_i hg; cases h; exact ⟨rfl, hg⟩
+        · cases h
+      · rintro ⟨rfl, hg⟩; simp [hg]
+  refine ⟨?_, ?_, ok_iff, ?_⟩
+  · intro hj; unfold collectionsSetter; simp [hj]
+  · intro e h
+    unfold collectionsSetter at h
+    split at h
+    · cases h; rfl
+    · exact collAddCore_error_is_bad _ e h
+  · intro os hd
+    unfold docCollections at hd
+    split at hd
+    · rename_i hall
+      obtain ⟨hnj, heq⟩ := no_junk_of_collections _ hall
+      unfold keepGood at hd
+      split at hd
+      · rename_i hg; cases hd
+        exact (ok_iff _).mpr ⟨hnj, heq.symm, hg⟩
+      · cases hd
+    · cases hd
+
+/- FULL: `collections` accepted ⇔ documented.  Still false of the code in one respect: sources and sensors among the entries are Magpylib objects,
+   so `_refuse_non_objects` lets them pass, and `format_obj_input(…, allow="collections")` then drops them without a word. -/
+/-- witness: `c.collections = [a_source, a_sensor]` is accepted and means "no sub-collections" -/
+theorem collections_setter_drops_other_objects :
+    docCollections (.seq [.obj 0 .source, .obj 1 .sensor]) = none ∧
+    collectionsSetter (.seq [.obj 0 .source, .obj 1 .sensor]) = .ok [] ∧
+    collectionsSetter (.seq [.obj 2 .collection, .obj 0 .source]) = .ok [(2, .collection)] := by
+  decide
+
+example : childrenSetter .junk = .error .badUserInput := by decide
+example : childrenSetter (.obj 0 .source) = .ok [(0, .source)] := by decide
+example : childrenSetter (.seq [.seq [.obj 0 .source, .obj 1 .sensor]]) = .ok [(0, .source), (1, .sensor)] := by decide
+example : childrenSetter (.seq [.seq [.obj 0 .source], .seq [.obj 1 .sensor]]) = .error .badUserInput := by decide
+example : childrenSetter (.seq [.obj 0 .source, .obj 0 .source]) = .error .badUserInput := by decide
+example : childrenSetter (.seq [.obj 0 .source, .obj 7 .selfOrAncestor]) = .error .badUserInput := by decide
+example : collectionsSetter (.seq [.obj 2 .collection, .seq [.seq [.junk]]]) = .error .badUserInput := by decide
+example : collectionsSetter (.seq [.seq [.obj 2 .collection], .obj 5 .collection]) = .ok [(2, .collection), (5, .collection)] := by decide
+example : docCollections (.seq [.seq [.obj 2 .collection], .obj 5 .collection]) = some [(2, .collection), (5, .collection)] := by decide
 
 /-! ## constructor path = setter path (regenerated table of every `__init__`, Gen/Setters.lean) -/
 
